@@ -310,7 +310,8 @@ Section Codec.
                   do v <- lc_rd L PText (match txt with None => [] | Some s => s end); Ok (VLeaf v)
               | TPrim p =>                                                 (* base_from_element *)
                   match txt with
-                  | None => Ok VNone                                       (* from_unicode(cls, None) *)
+                  | None => if x_soft C && negb nillable then VFault       (* validate_string(cls, None) = nillable *)
+                            else Ok VNone                                  (* from_unicode(cls, None) *)
                   | Some s => do v <- lc_rd L p s; Ok (VLeaf v)
                   end
               | TArr el =>                                                 (* array_from_element *)
